@@ -382,6 +382,202 @@ pub fn check_b(ctx: &mut Ctx, c: &CaseB) -> Result<(), String> {
     }
 }
 
+// ------------------------------------------------------------------ (C) lock wrappers under contention
+
+/// a lookup / update / save issued through a lock wrapper while another task holds the wrapper's lock
+#[derive(Clone, Debug, Serialize, Deserialize, PartialEq, Eq, Hash)]
+pub struct CaseC {
+    pub kind: Kind,
+    pub contents: Vec<CredDesc>,
+    pub list: ListSel,
+    pub rp: usize,
+    /// RwLock wrappers only: the other task holds a read lock (otherwise the write lock / the mutex)
+    pub shared_hold: bool,
+    /// 0 lookup; 1 counter update; 2 save of a further credential (1 and 2 only through the Arc wrappers: a plain
+    /// wrapper is borrowed exclusively by these calls and cannot be contended)
+    pub op: u8,
+}
+
+type Found = Result<Vec<Passkey>, u8>;
+
+/// poll `fut` a few times while `guard` is alive, release, run to completion; (result, answered while the lock was held)
+fn under_guard<'a, T, G>(fut: impl std::future::Future<Output = T> + 'a, guard: G) -> Result<(T, bool), String> {
+    let mut t = crate::rt::Task::new(fut);
+    let mut early = false;
+    for _ in 0..3 {
+        if t.poll() {
+            early = true;
+            break;
+        }
+    }
+    drop(guard);
+    let mut n = 0;
+    while !t.is_done() {
+        if n > 1000 || (n > 0 && !t.is_runnable()) {
+            return Err("the call never completes after the other task released the lock".into());
+        }
+        t.poll();
+        n += 1;
+    }
+    Ok((t.output.take().ok_or("no output")?, early))
+}
+
+fn check_c(ctx: &mut Ctx, c: &CaseC) -> Result<(), String> {
+    use tokio::sync::{Mutex, RwLock};
+    ctx.eval();
+    ctx.sample(&format!("contended/{:?}", c.kind), || json!(c));
+    let creds = build(&c.contents);
+    let creds: Vec<Passkey> = if c.kind.single_slot() { creds.into_iter().take(1).collect() } else { creds };
+    let mem = || {
+        let mut m = MemoryStore::new();
+        for pk in &creds {
+            m.put(pk.clone());
+        }
+        m
+    };
+    let slot = || creds.first().cloned();
+    let rp = RPS[c.rp % RPS.len()];
+    let ids = list_ids(&c.list, creds.len());
+    let descriptors = ids.as_ref().map(|l| l.iter().map(|(i, t)| cer::descriptor_ty(i, *t)).collect::<Vec<_>>());
+    let idv: Option<Vec<Vec<u8>>> = ids.as_ref().map(|l| l.iter().map(|(i, _)| i.clone()).collect());
+    let d = descriptors.as_deref();
+    let arc_kind = matches!(c.kind, Kind::ArcMutexMemory | Kind::ArcRwLockMemory | Kind::ArcMutexOption);
+    let op = if arc_kind { c.op % 3 } else { 0 };
+    let rw = matches!(c.kind, Kind::ArcRwLockMemory | Kind::RwLockMemory | Kind::RwLockOption);
+    let shared = rw && c.shared_hold;
+    // the model after the operation
+    let mut held = creds.clone();
+    let fresh = make_passkey(990, rp, b"c05-contended-fresh-credential", Some(b"user-0"), Some(1), None);
+    let mut touched: Option<Passkey> = None;
+    match op {
+        1 => {
+            if let Some(first) = held.first_mut() {
+                first.counter = Some(first.counter.unwrap_or(0).wrapping_add(41));
+                touched = Some(first.clone());
+            }
+        }
+        2 => {
+            if c.kind.single_slot() {
+                held.clear();
+            }
+            held.push(fresh.clone());
+            touched = Some(fresh.clone());
+        }
+        _ => {}
+    }
+    if op != 0 && touched.is_none() {
+        return Ok(());
+    }
+    ctx.nontrivial(c);
+    ctx.class(&format!("contended/{}/{}", ["lookup", "update", "save"][op as usize], if shared { "reader-holds" } else { "writer-holds" }));
+    let mk_user = || passkey_types::ctap2::make_credential::PublicKeyCredentialUserEntity { id: b"u".to_vec().into(), name: None, display_name: None, icon_url: None };
+    let mk_rp = || make_credential::PublicKeyCredentialRpEntity { id: rp.to_string(), name: None };
+    let mk_opts = || get_assertion::Options { rk: true, up: true, uv: true };
+    let fe = |r: Result<Vec<Passkey>, passkey_types::ctap2::StatusCode>| -> Found { r.map_err(u8::from) };
+    let me = |r: Result<(), passkey_types::ctap2::StatusCode>| -> Result<(), u8> { r.map_err(u8::from) };
+    // (lookup result, mutation result, answered while locked, final lookup of everything the RP holds)
+    macro_rules! arc_case {
+        ($store:expr, $guard:ident) => {{
+            let store = $store;
+            let mut h = store.clone();
+            let $guard = ();
+            let _ = $guard;
+            match op {
+                0 => {
+                    let (r, early) = under_guard(h.find_credentials(d, rp), guard_of!(store))?;
+                    (Some(fe(r)), None, early, fe(block_on(store.find_credentials(None, rp))))
+                }
+                1 => {
+                    let (r, early) = under_guard(h.update_credential(touched.clone().unwrap()), guard_of!(store))?;
+                    (None, Some(me(r)), early, fe(block_on(store.find_credentials(None, rp))))
+                }
+                _ => {
+                    let (r, early) = under_guard(h.save_credential(fresh.clone(), mk_user(), mk_rp(), mk_opts()), guard_of!(store))?;
+                    (None, Some(me(r)), early, fe(block_on(store.find_credentials(None, rp))))
+                }
+            }
+        }};
+    }
+    let (looked, mutated, early, after): (Option<Found>, Option<Result<(), u8>>, bool, Found) = match c.kind {
+        Kind::ArcMutexMemory => {
+            macro_rules! guard_of { ($s:expr) => { block_on($s.lock()) }; }
+            arc_case!(Arc::new(Mutex::new(mem())), _g)
+        }
+        Kind::ArcMutexOption => {
+            macro_rules! guard_of { ($s:expr) => { block_on($s.lock()) }; }
+            arc_case!(Arc::new(Mutex::new(slot())), _g)
+        }
+        Kind::ArcRwLockMemory => {
+            if shared {
+                macro_rules! guard_of { ($s:expr) => { block_on($s.read()) }; }
+                arc_case!(Arc::new(RwLock::new(mem())), _g)
+            } else {
+                macro_rules! guard_of { ($s:expr) => { block_on($s.write()) }; }
+                arc_case!(Arc::new(RwLock::new(mem())), _g)
+            }
+        }
+        Kind::MutexMemory => {
+            let store = Mutex::new(mem());
+            let (r, early) = under_guard(store.find_credentials(d, rp), block_on(store.lock()))?;
+            (Some(fe(r)), None, early, fe(block_on(store.find_credentials(None, rp))))
+        }
+        Kind::RwLockMemory => {
+            let store = RwLock::new(mem());
+            let (r, early) = if shared { under_guard(store.find_credentials(d, rp), block_on(store.read()))? } else { under_guard(store.find_credentials(d, rp), block_on(store.write()))? };
+            (Some(fe(r)), None, early, fe(block_on(store.find_credentials(None, rp))))
+        }
+        Kind::RwLockOption => {
+            let store = RwLock::new(slot());
+            let (r, early) = if shared { under_guard(store.find_credentials(d, rp), block_on(store.read()))? } else { under_guard(store.find_credentials(d, rp), block_on(store.write()))? };
+            (Some(fe(r)), None, early, fe(block_on(store.find_credentials(None, rp))))
+        }
+        _ => return Ok(()),
+    };
+    if early {
+        ctx.measure(if shared { "contended: answered while a reader held the lock" } else { "contended: answered while the lock was held exclusively" }, 1);
+    }
+    let as_set = |f: &Found, what: &str| -> Result<Vec<PkSnap>, String> {
+        let mut v: Vec<PkSnap> = match f {
+            Ok(v) => v.iter().map(snap).collect(),
+            Err(0x2E) => vec![],
+            Err(e) => return Err(format!("{:?}: {what} failed with 0x{e:02X} when issued while another task held the {} (answered {})", c.kind, if shared { "read lock" } else { "lock" }, if early { "while it was held" } else { "after its release" })),
+        };
+        v.sort_by(|a, b| a.id.cmp(&b.id));
+        v.dedup();
+        Ok(v)
+    };
+    let want_of = |ids: Option<&[Vec<u8>]>| {
+        let mut v: Vec<PkSnap> = contract_find(&held, ids, rp).into_iter().map(snap).collect();
+        v.sort_by(|a, b| a.id.cmp(&b.id));
+        v
+    };
+    if let Some(f) = &looked {
+        let got = as_set(f, "find_credentials")?;
+        let want = want_of(idv.as_deref());
+        if got != want {
+            let extra_foreign = got.iter().filter(|g| !want.contains(g)).all(|e| e.rp_id != rp && idv.as_ref().is_some_and(|l| l.contains(&e.id))) && want.iter().all(|w| got.contains(w));
+            if extra_foreign && c.kind.memory_family() && ctx.is_known(SIG_D5) {
+                ctx.known_hit(SIG_D5);
+            } else {
+                return Err(format!("{:?}: a lookup issued while another task held the lock does not answer per the contract: got {} credentials, the contract gives {}", c.kind, got.len(), want.len()));
+            }
+        }
+    }
+    if let Some(Err(e)) = mutated {
+        return Err(format!("{:?}: {} failed with 0x{e:02X} when issued while another task held the lock", c.kind, if op == 1 { "update_credential" } else { "save_credential" }));
+    }
+    let got = as_set(&after, "the follow-up lookup")?;
+    if got != want_of(None) {
+        return Err(format!("{:?}: after a contended {} the store's content for {rp:?} is not what the operations add up to", c.kind, ["lookup", "update", "save"][op as usize]));
+    }
+    Ok(())
+}
+
+fn case_c() -> impl Strategy<Value = CaseC> {
+    let kinds = prop_oneof![Just(Kind::ArcMutexMemory), Just(Kind::ArcRwLockMemory), Just(Kind::MutexMemory), Just(Kind::RwLockMemory), Just(Kind::ArcMutexOption), Just(Kind::RwLockOption)];
+    (kinds, proptest::collection::vec(cred_desc(), 0..6), list_sel(), 0usize..5, any::<bool>(), 0u8..3).prop_map(|(kind, contents, list, rp, shared_hold, op)| CaseC { kind, contents, list, rp, shared_hold, op })
+}
+
 // ------------------------------------------------------------------ strategies
 
 fn cred_desc() -> impl Strategy<Value = CredDesc> {
@@ -416,7 +612,7 @@ fn case_b() -> impl Strategy<Value = CaseB> {
 
 pub fn run(ctx: &mut Ctx) {
     let fs = ctx.first_shard();
-    ctx.rule = "(A) authenticator over the reference store (contract semantics, call log), MemoryStore, the Option slot and Arc<Mutex<MemoryStore>>: contents of 0-8 credentials over 5 RP IDs (two in a parent/child domain relation, two differing only in letter case) with equal user handles across RPs; assertions and registrations with every allow/exclude-list shape (absent, empty, hits, misses, ids of another RP, unknown descriptor types). (B) contract conformance of every shipped store and lock wrapper on generated save/update/query sequences. Non-trivial = (A) at least two RPs populated and a list that names a foreign RP's id, (B) a query whose expected result differs from 'all credentials'; distinct by case / by (store, contents, query).".into();
+    ctx.rule = "(A) authenticator over the reference store (contract semantics, call log), MemoryStore, the Option slot and Arc<Mutex<MemoryStore>>: contents of 0-8 credentials over 5 RP IDs (two in a parent/child domain relation, two differing only in letter case) with equal user handles across RPs; assertions and registrations with every allow/exclude-list shape (absent, empty, hits, misses, ids of another RP, unknown descriptor types). (B) contract conformance of every shipped store and lock wrapper on generated save/update/query sequences. (C) the six lock wrappers with another task holding the lock (mutex / write lock / read lock) while a lookup, and through the Arc wrappers an update or a save, is issued: the call may wait but must answer per the contract. Non-trivial = (A) at least two RPs populated and a list that names a foreign RP's id, (B) a query whose expected result differs from 'all credentials'; distinct by case / by (store, contents, query).".into();
     ctx.assumptions = vec![
         "lookup contract: result = { c | c.rp_id == rp_id and (ids is None or c.id in ids) } as a set; an empty result may be Ok([]) or NoCredentials".into(),
         "'first credential the store lists' is asserted on the reference store, whose listing order is insertion order".into(),
@@ -432,6 +628,11 @@ pub fn run(ctx: &mut Ctx) {
         Search::Pass => {}
         Search::Fail(c, msg) => ctx.violation("contract", json!(c), &msg),
     }
+    let n = ctx.tier.pick(3_000u32, 1_000_000u32);
+    match search(ctx, 7, n, case_c(), check_c) {
+        Search::Pass => {}
+        Search::Fail(c, msg) => ctx.violation("contended", json!(c), &msg),
+    }
     // fixed: empty exclude list against populated shipped stores, unknown-typed allow list
     for kind in [Kind::Ref, Kind::Memory, Kind::OptionSlot, Kind::ArcMutexMemory].into_iter().filter(|_| fs) {
         for list in [ListSel::Empty, ListSel::Absent, ListSel::Ids(vec![IdSel::Miss(1, false)]), ListSel::Ids(vec![IdSel::Miss(1, true)]), ListSel::Ids(vec![IdSel::Held(0, false)])] {
@@ -446,7 +647,10 @@ pub fn run(ctx: &mut Ctx) {
 }
 
 pub fn replay(ctx: &mut Ctx, stage: &str, case: &Value) -> Result<(), String> {
-    if stage.starts_with("contract") {
+    if stage.starts_with("contended") {
+        let c: CaseC = serde_json::from_value(case.clone()).map_err(|e| format!("bad case: {e}"))?;
+        check_c(ctx, &c)
+    } else if stage.starts_with("contract") {
         let c: CaseB = serde_json::from_value(case.clone()).map_err(|e| format!("bad case: {e}"))?;
         check_b(ctx, &c)
     } else {
